@@ -106,7 +106,22 @@ def generate(rng, tier):
                 exp[len(lines)] = ('parse', mark)
                 lines.append('parse_buf 0 ' + hx(b'include("f.conf")\n'))
                 lines.append('dump 0')
-            yield Scn('lay%d' % n, lines, {'class': 'searchpath-%d' % len(order), 'expect': exp, 'ndirs': len(order)})
+            # a name starting with ~: the top-level parse and include() resolve it alike (with a search path the name is
+            # looked up below each directory as it stands; without one it is tilde-expanded)
+            tilde_names = [b'~/f.conf', b'~bob/f.conf'] if len(order) <= 1 or n % 5 == 0 else []
+            for nm in tilde_names:
+                if order:
+                    e = expected(lay, order, nm, homes)
+                else:
+                    e = tilde(nm, homes)
+                    e = e if re.fullmatch(rb'@R/(d[123])/f\.conf', e) and lay[e[3:5]] == 'file' else None
+                mark = int(re.search(rb'd([123])/', e).group(1)) if e is not None else None
+                for cmd in ('parse_file 0 ' + hx(nm), 'parse_buf 0 ' + hx(b'include("' + nm + b'")\n')):
+                    lines.append('setint 0 6d 0 0')
+                    exp[len(lines)] = ('parse', mark)
+                    lines.append(cmd)
+                    lines.append('dump 0')
+            yield Scn('lay%d' % n, lines, {'class': 'searchpath-%d' % len(order), 'expect': exp, 'ndirs': len(order), 'tilde': bool(tilde_names)})
     # tilde forms
     tl = []
     exp = {}
